@@ -7,7 +7,7 @@ def is_harness_arith(f, crate):
     """an overflow / index / division check that fails in the harness crate's own source (not in /repo, not in core/std)"""
     loc = f.get("location", "")
     desc = f.get("description", "")
-    in_harness = loc.startswith("src/") and not loc.startswith("/repo")
+    in_harness = loc.startswith("src/") and not loc.startswith("/repo") and not f.get("function", "").startswith(("elf::", "<elf::"))
     arith = desc.startswith("attempt to ") or "index out of bounds" in desc or "out of range for slice" in desc
     unwind = f.get("category") == "unwind" or desc.startswith("unwinding assertion")   # a loop of the harness itself needs a larger bound
     return in_harness and (arith or unwind)
